@@ -453,7 +453,25 @@ def rand_valid_data_bytes(rng):
 def perturb(rng, b):
     """one structural perturbation of an octet string"""
     b = bytearray(b)
-    c = rng.randrange(9)
+    c = rng.randrange(10)
+    if c == 9 and len(b) >= 12 and b[0] & 0x01:
+        # a control message: padding octets (zeros, or a copy of the flag word) inserted at a structural boundary -- after
+        # the header or between two AVP records -- with the Length field adjusted, and now and then the O or P bit set
+        pos, i = [12], 12
+        while i + 6 <= len(b):
+            n = ((b[i] >> 6) << 8) | b[i + 1]
+            if n < 6 or i + n > len(b):
+                break
+            i += n
+            pos.append(i)
+        at = rng.choice(pos)
+        pad = bytes(rng.choice([1, 2, 2, 4, 6, 8])) if rng.random() < 0.8 else bytes(b[0:2])
+        b[at:at] = pad
+        L = int.from_bytes(b[2:4], 'big') + len(pad)
+        b[2:4] = be(L & 0xffff, 2)
+        if rng.random() < 0.5:
+            b[0] |= rng.choice([0x40, 0x80, 0xc0])
+        return bytes(b)
     if c == 0 and len(b) > 0:
         return bytes(b[:rng.randrange(len(b))])
     if c == 1 and len(b) >= 4:
